@@ -33,6 +33,13 @@ def open_endpoint(ctx):
     if ctx.get("maxMsg"):
         opts["maxMessagePayloadSize"] = ctx["maxMsg"]
     opts.update(ctx.get("opts") or {})
+    lim = {k: opts[k] for k in ("maxFramePayloadSize", "maxMessagePayloadSize") if k in opts}
+    if ctx.get("via") == "attrs" and lim:
+        opts["_attrs"] = {k: opts.pop(k) for k in lim}
+    elif ctx.get("via") == "pre":
+        opts["_pre"] = dict(maxFramePayloadSize=3, maxMessagePayloadSize=5)
+        opts.setdefault("maxFramePayloadSize", 0)          # (0 lifts the earlier limit again)
+        opts.setdefault("maxMessagePayloadSize", 0)
     if ctx.get("autoping"):
         opts.update(autoPingInterval=1, autoPingTimeout=0)
     log = []
@@ -477,6 +484,9 @@ def run_limits(inp, rng):
                         ctx = dict(role=role, failByDrop=rng.random() < 0.5, compress=rng.random() < 0.4,
                                    maxFrame=lim if which in ("maxFrame", "both", "equal") else 0,
                                    maxMsg=lim if which in ("maxMsg", "equal") else (lim * 2 if which == "both" else 0))
+                        # how the limits get configured must not matter: factory options, class attributes of the protocol
+                        # subclass, or factory options that replace earlier ones
+                        ctx["via"] = rng.choice(["opts", "opts", "attrs", "pre"])
                         closing_first = rng.random() < 0.25          # the application's own close is in flight
                         binary = rng.random() < 0.5
                         compressed_msg = ctx["compress"] and rng.random() < 0.6
